@@ -8,6 +8,7 @@ import (
 	"strings"
 	"sync"
 	"time"
+	"unicode/utf8"
 
 	"github.com/segmentio/ksuid"
 	"google.golang.org/protobuf/proto"
@@ -17,9 +18,9 @@ import (
 	"github.com/jrhy/s3db/internal"
 	"github.com/jrhy/s3db/kv"
 	"github.com/jrhy/s3db/kv/crdt"
+	v1proto "github.com/jrhy/s3db/proto/v1"
 	"github.com/jrhy/s3db/sql"
 	"github.com/jrhy/s3db/sql/parse"
-	v1proto "github.com/jrhy/s3db/proto/v1"
 	sqlTypes "github.com/jrhy/s3db/sql/types"
 	"github.com/jrhy/s3db/writetime"
 )
@@ -165,13 +166,31 @@ func convertSchema(s string, t *VirtualTable) error {
 	if len(schema.PrimaryKey) > 1 {
 		return fmt.Errorf("sqlite vtable primary key cannot be composite")
 	}
+	// Everything SQLite would refuse when the table is declared is checked
+	// here, before the storage is opened: opening merges, and stores the
+	// merge of, whatever versions it finds.
 	columnMap := map[string]struct{}{}
+	folded := map[string]struct{}{}
 	for i := range schema.Columns {
 		name := schema.Columns[i].Name
-		if _, ok := columnMap[name]; ok {
+		if !utf8.ValidString(name) {
+			return fmt.Errorf("column name is not valid UTF-8: %q", name)
+		}
+		// SQLite compares names without regard to (ASCII) case
+		lower := strings.Map(func(r rune) rune {
+			if 'A' <= r && r <= 'Z' {
+				return r + 'a' - 'A'
+			}
+			return r
+		}, name)
+		if _, ok := folded[lower]; ok {
 			return fmt.Errorf("duplicate column: %s", name)
 		}
+		folded[lower] = struct{}{}
 		columnMap[schema.Columns[i].Name] = struct{}{}
+	}
+	if _, ok := folded["_rowid_"]; ok && len(schema.PrimaryKey) == 0 {
+		return fmt.Errorf("a table without primary key cannot have a column named _rowid_")
 	}
 	t.usesRowID = true
 	var keyColName string
